@@ -120,6 +120,45 @@ Theorem C06_multi_refines_full :
 Proof. exact mrefines. Qed.
 Print Assumptions C06_multi_refines_full.
 
+(* T6: maximisation result and test statistic.  The minimiser is an oracle: ANY
+   deterministic strategy `strat` that chooses the next parameter point (or
+   stops) from the list of its earlier queries and the values / errors evaluate
+   returned for them, any bound `fuel` on the number of queries, any function
+   `pick` computing (log_lambda_max, best fit, status) from that list and any
+   test statistic `ts` of the result.  After ANY history `xpre` — which may
+   itself contain maximisations — in a trial initialised with data d and after
+   any evaluations / second derivatives / maximisations `xmid` of that trial, the
+   maximisation returns exactly what it returns on freshly built objects for the
+   current source hypothesis, and so does the test statistic.  Holds for every
+   configuration (no guard on global-fit-parameter fields). *)
+Theorem C06_maximize_and_ts_as_fresh :
+  forall (W : world) (C : cfg),
+    (forall x y, glow W x = glow W y -> gup W x = gup W y) ->
+    forall (MaxOut TS : Type) (strat : qlog W -> option (Z * Z)) (pick : qlog W -> MaxOut) (ts : MaxOut -> TS)
+           (s0 : src W) (xpre : list (xop W)) (d : data W) (xmid : list (xop W)) (fuel : nat),
+      forallb (xis_query W) xmid = true ->
+      let used := snd (maximize W C MaxOut strat pick fuel
+                         (xfinal W C MaxOut strat pick (init W C s0) (xpre ++ XOp W (InitTrial W d) :: xmid))) in
+      let fresh := snd (maximize W C MaxOut strat pick fuel
+                          (mfinal W C (init W C (xsrc_after W s0 xpre)) [InitTrial W d])) in
+      used = fresh /\ ts used = ts fresh.
+Proof. exact xmaximize_and_ts_as_fresh. Qed.
+Print Assumptions C06_maximize_and_ts_as_fresh.
+
+(* T7: with SplinedI3EnergySigSetOverBkgPDFRatio (its own cache of the ratio
+   and gradients, keyed by state id and interpolation parameter, in front of the
+   interpolation method) every observation of every history equals that of the
+   same cache-free specification.  (Configurations without a plain
+   global-fit-parameter field.) *)
+Theorem C06_i3_ratio_cache_refines_full :
+  forall (W : world) (C : cfg),
+    (forall x y, glow W x = glow W y -> gup W x = gup W y) ->
+    c_gfp_srcevt C || (c_ngfp C <=? 0) = true ->
+    forall (s0 : src W) (ops : list (op W)),
+      i3observations W C (i3init W C s0) ops = srun W C (sinit W C s0) ops.
+Proof. exact i3refines. Qed.
+Print Assumptions C06_i3_ratio_cache_refines_full.
+
 (* The two guards of T2 / T3 are necessary for the code as it is: *)
 Theorem C06_ns_grad2_after_failed_evaluate_refuted :
   exists (W : world) (C : cfg) (s0 : src W) (d : data W) (ns x ns' x' n : Z),
@@ -201,3 +240,44 @@ Example C06_nonvacuous_profile :
   (fun o : mobs W MW => match o with MEvalO _ _ (Ok l) => nth 8 (l : list Z) 0 | _ => 0 end)
     (nth 1 (mobservations W C MW MC (minit W C MW 7) [MInit W 3 4; MEval W 5 250]) (MNone W MW)) = 3.
 Proof. repeat split; vm_compute; reflexivity. Qed.
+
+(* a concrete minimiser (three queries moving through two grid cells, result =
+   the list of queried points with Ok/Err flags) on used and on fresh objects *)
+Example C06_nonvacuous_maximize :
+  let W := wfree 100 100 100 400 in
+  let C := mkcfg 1 0 1 true false 1 false in
+  let strat := fun h : qlog W => if (length h <? 3)%nat then Some (5, 250 + 60 * Z.of_nat (length h)) else None in
+  let pick := fun h : qlog W => map (fun q => (fst q, match snd q with Ok _ => true | Err _ => false end)) h in
+  snd (maximize W C _ strat pick 10
+         (xfinal W C _ strat pick (init W C 7)
+            [XOp W (InitTrial W 1); XMax W 10; XOp W (ChangeSource W 8); XOp W (InitTrial W 2);
+             XOp W (Evaluate W 6 225); XMax W 2; XOp W (NsGrad2 W 5)]))
+  = [((5, 250), true); ((5, 310), true); ((5, 370), true)] /\
+  snd (maximize W C _ strat pick 10 (mfinal W C (init W C 8) [InitTrial W 2]))
+  = [((5, 250), true); ((5, 310), true); ((5, 370), true)].
+Proof. split; vm_compute; reflexivity. Qed.
+
+(* two global-fit-parameter fields on different parameters (interpolation
+   parameter, ns): each is recalculated exactly when its own parameter changed,
+   and every evaluation changes the state id whichever field was recalculated
+   (seeded defect C06-5: only the last-registered field decided) *)
+Example C06_nonvacuous_two_gfp_fields :
+  let W := wfree 100 100 100 400 in
+  let C := mkcfg 0 0 0 true false 2 false in
+  map (fun r => (filter (fun e => match e with TG | TG2 => true | _ => false end) (snd (fst r)), snd r))
+      (run W C (init W C 7) [InitTrial W 1; Evaluate W 5 250; Evaluate W 5 350; Evaluate W 6 350; Evaluate W 6 350])
+  = [([], 0); ([TG; TG2], 1); ([TG], 2); ([TG2], 3); ([], 4)].
+Proof. vm_compute. reflexivity. Qed.
+
+(* the i3 ratio cache is hit by a repeated evaluation at the same parameter
+   value (no manifold call), missed for another value of the same grid cell
+   (the line cache below it is hit: no manifold call either, but the ratio is
+   recomputed), and invalidated by a new trial *)
+Example C06_nonvacuous_i3 :
+  let W := wfree 100 100 100 400 in
+  let C := mkcfg 0 0 0 false false 0 false in
+  map (fun r => (snd (fst r), snd r))
+      (i3run W C (i3init W C 7) [InitTrial W 1; Evaluate W 5 250; Evaluate W 6 250; Evaluate W 5 225;
+                                 InitTrial W 2; Evaluate W 5 225])
+  = [([], 0); ([TF 200; TP 200; TF 300; TP 300], 0); ([], 0); ([], 0); ([], 1); ([TF 200; TP 200; TF 300; TP 300], 1)].
+Proof. vm_compute. reflexivity. Qed.
